@@ -191,6 +191,9 @@ class Repo:
         for rel, src in sources.items():
             self.modules[rel] = ModuleInfo(rel, src)
         self._by_modname = {m.modname: m for m in self.modules.values()}
+        for m in list(self.modules.values()):
+            if m.modname.endswith(".__init__"):
+                self._by_modname.setdefault(m.modname[: -len(".__init__")], m)  # a package is its __init__ module
         self.class_index = {}
         for m in self.modules.values():
             for c in m.classes.values():
